@@ -457,12 +457,12 @@ func (n *NFA) Isomorphic(rhs *NFA) bool {
 	}
 
 	// Since generatePermutations uses backtracking and modifies the slice in-place, we need a copy.
-	states := make([]State, len(states1))
-	copy(states, states1)
+	states := make([]State, len(states2))
+	copy(states, states2)
 
-	// Methodically checking if any permutation of N₁ states is equal to N₂.
+	// Methodically checking if renaming N₁ states to any permutation of N₂ states is equal to N₂.
 	return !generatePermutations(states, 0, len(states)-1, func(permutation []State) bool {
-		// Create a bijection between the states of N₁ and the current permutation of N₁.
+		// Create a bijection between the states of N₁ and the current permutation of N₂ states.
 		// A bijection or bijective function is a type of function that creates a one-to-one correspondence between two sets (states1 ↔ permutation).
 		bijection := make(map[State]State, len(states1))
 		for i, s := range states1 {
@@ -510,9 +510,11 @@ func (n *NFA) getSortedDegreeSequence() []int {
 		}
 	}
 
-	sortedDegrees := make([]int, len(totalDegrees))
-	for i, degree := range totalDegrees {
-		sortedDegrees[i] = degree
+	// Every state has a degree (zero, if it has no transition).
+	states := n.States()
+	sortedDegrees := make([]int, len(states))
+	for i, s := range states {
+		sortedDegrees[i] = totalDegrees[s]
 	}
 
 	sort.Quick3Way[int](sortedDegrees, generic.NewCompareFunc[int]())
